@@ -35,6 +35,8 @@ def run(c):
         "the hook-free streams also run on FROZEN caches (Value.Freeze before use, as Starlark does to a module-level cache) and "
         "end to end through a real project (module-level Cache(), target bodies calling cache.once with a counting callable from "
         "LoadOptions.Builtins, built with Project.Run; per key <=1 invocation per build, one value); "
+        "configurations with two or three caches sharing key names (judged per (cache, key); one Starlark thread per caller), and "
+        "many-keys sequences (5 000 and 70 000 distinct keys in one cache, then early keys asked again); "
         "hook-free judge first (VerifHook unset; only Cache().once is used, also to observe the cache's content): every sequential "
         "call sequence runs on a fresh cache in its own goroutine under a timeout (a wedged cache is abandoned and reported as a hang with the "
         "sequence as replay), with int results and with results drawn from None, False, 0, \"\", (), [], a fresh list, 1, \"v<key>\"; "
